@@ -137,9 +137,10 @@ class CallFunction(Node):
             nm = ''
             if not self.in_tell_operation:
                 nm = '_movie.'
-            if params_str.startswith('symbol(\''):
-                p = params_str[len('symbol(\''):-2]
-                nm = nm + 'go' + p.capitalize()
+            operands = getattr(self.parameters, 'operands', [])
+            if len(operands) == 1 and isinstance(operands[0], Symbol):
+                # go next, go previous, go loop
+                nm = nm + 'go' + operands[0].name.capitalize()
                 params_str = ''
             else:
                 nm = nm + 'go'
